@@ -3,6 +3,7 @@
 use crate::common::*;
 use crate::gen::*;
 use crate::prog::*;
+use bcder::decode::Constructed;
 use crate::c02::{prog_case, wrap, in_ctx, ctx_ok};
 
 /// preorder (identifier octets, depth) of a value
@@ -31,6 +32,25 @@ fn skip_vs_read(mode: u8, data: &[u8], ctx: Ctx, j: usize, variant: u8, obs: &[i
     if obs.first() == Some(&3) { return Oracle::Fail("panic".into()) }
     if r.first() != obs.first() { return Oracle::Fail("skip-and-read-disagree-on-acceptance".into()) }
     if r.first() == Some(&0) && r[1] != obs[1] { return Oracle::Fail("skip-and-read-advance-differently".into()) }
+    if variant == 3 {
+        // the program language spells skip_all as a loop of skip_one (to count); the library's own
+        // skip_all must agree with reading as well
+        let real = catch(|| {
+            let mut src = bcder::decode::SliceSource::new(data);
+            let body = |c: &mut Constructed<&mut bcder::decode::SliceSource>| -> Result<(), bcder::decode::DecodeError<std::convert::Infallible>> {
+                let mut l = Vec::new(); exec(&pre, c, &mut l)?; c.skip_all()?; exec(&[Prog::ReadAll], c, &mut l) };
+            let r = match ctx { Ctx::Top => Constructed::decode(&mut src, mode_of(mode), body),
+                                _ => Constructed::decode(&mut src, mode_of(mode), |c| c.take_constructed_if(bcder::Tag::SEQUENCE, body)) };
+            (r.is_ok(), src.len())
+        });
+        match real {
+            None => return Oracle::Fail("skip_all-panics".into()),
+            Some((ok, left)) => {
+                if ok != (r.first() == Some(&0)) { return Oracle::Fail("skip_all-and-read-disagree-on-acceptance".into()) }
+                if ok && left as i128 != r[1] { return Oracle::Fail("skip_all-and-read-advance-differently".into()) }
+            }
+        }
+    }
     Oracle::Pass
 }
 
